@@ -251,13 +251,17 @@ def _norm(v):
 def graph_state(net):
     """(nodes in order, {(up,down): link}, {node: origin}, {node: destination}) by id."""
     G = X.raw_graph(net)
-    nodes = [id(n) for n in G.nodes]
-    objs = {id(n): n for n in G.nodes}
-    edges = {(id(u), id(w)): id(d.get(X.LINK)) for u in G.nodes for w, d in G.succ[u].items()}
-    org = {id(n): id(G.nodes[n][X.ORIGIN]) for n in G.nodes if X.ORIGIN in G.nodes[n]}
-    dst = {id(n): id(G.nodes[n][X.DEST]) for n in G.nodes if X.DEST in G.nodes[n]}
-    extra = {id(n): sorted(k for k in G.nodes[n] if k not in (X.ORIGIN, X.DEST)) for n in G.nodes}
-    eextra = {(id(u), id(w)): sorted(k for k in d if k != X.LINK) for u in G.nodes for w, d in G.succ[u].items()}
+    # the raw dictionaries are walked as (key, value) pairs - never looked up by key: if element hashing or
+    # equality went wrong, a lookup would fail or hit another entry, which is exactly what is to be seen
+    node_items = list(G._node.items())
+    succ_items = [(u, list(nb.items())) for u, nb in G._succ.items()]
+    nodes = [id(n) for n, _d in node_items]
+    objs = {id(n): n for n, _d in node_items}
+    edges = {(id(u), id(w)): id(d.get(X.LINK)) for u, nb in succ_items for w, d in nb}
+    org = {id(n): id(d[X.ORIGIN]) for n, d in node_items if X.ORIGIN in d}
+    dst = {id(n): id(d[X.DEST]) for n, d in node_items if X.DEST in d}
+    extra = {id(n): sorted(k for k in d if k not in (X.ORIGIN, X.DEST)) for n, d in node_items}
+    eextra = {(id(u), id(w)): sorted(k for k in d if k != X.LINK) for u, nb in succ_items for w, d in nb}
     return {"nodes": nodes, "edges": edges, "org": org, "dst": dst, "objs": objs,
             "extra": {k: v for k, v in extra.items() if v}, "eextra": {k: v for k, v in eextra.items() if v}}
 
